@@ -3,10 +3,10 @@ package main
 // E7: option-table extraction for functional options (util.Option closures).
 
 import (
-	"regexp"
 	"fmt"
 	"go/token"
 	"go/types"
+	"regexp"
 	"sort"
 	"strings"
 
